@@ -330,7 +330,9 @@ func deliver(w *writer.ChannelWriter, s *opSpec) ([]byte, error) {
 
 type randSrc struct{ *rand.Rand }
 
-func newRand(seed int64, stream string, idx int) *randSrc { return &randSrc{vf.Rand(seed, stream, idx)} }
+func newRand(seed int64, stream string, idx int) *randSrc {
+	return &randSrc{vf.Rand(seed, stream, idx)}
+}
 
 var nameAlphabet = []rune("abcXYZ019_-äß漢")
 
